@@ -88,3 +88,36 @@ def json_xml_roundtrip(n: int, s: str) -> bool:
     t = '[%d, "%s", {"k": true}]' % (n, s)
     r = ev(T['x2j'], t=t)
     return json.loads(r[0]) == [n, s, {'k': True}]
+
+
+# --- added after seeded-change review: one condition per code-point class, so that a wrong treatment of a whole class is found at once --
+
+_CLS = '''
+@ob(budget=90, family='escape-by-class', bound='one character in {desc}: escape/unescape identity and independent decoding', funcs=[H + ':escape_json_string', H + ':unescape_json_string'])
+def escape_class_{name}(s: str) -> bool:
+    """
+    pre: len(s) == 1 and {lo} <= ord(s) <= {hi}
+    post: _
+    """
+    e = escape_json_string(s)
+    return unescape_json_string(e) == s and json.loads('"' + e + '"') == s
+'''
+for _name, _lo, _hi, _desc in (('control', 0, 31, 'U+0000..U+001F'), ('ascii', 32, 126, 'U+0020..U+007E'), ('c1', 127, 159, 'U+007F..U+009F'),
+                               ('bmp_low', 160, 0xD7FF, 'U+00A0..U+D7FF'), ('bmp_high', 0xE000, 0xFFFF, 'U+E000..U+FFFF'),
+                               ('astral', 0x10000, 0x10FFFF, 'U+10000..U+10FFFF')):
+    define(_CLS.format(name=_name, lo=_lo, hi=_hi, desc=_desc), globals())
+
+
+T.update(parse_all({
+    'nested_empty': 'deep-equal(parse-json(serialize([[], $a, map{}, [$s, []]], map{"method": "json"})), [[], $a, map{}, [$s, []]])',
+    'nested_map': 'deep-equal(parse-json(serialize(map{"k": [$a, [], "x"], "e": map{}}, map{"method": "json"})), map{"k": [$a, [], "x"], "e": map{}})'}))
+
+
+@ob(budget=60, tbudget=600, kind='hunt', bound='arrays/maps with EMPTY arrays and maps as members, a double and a string leaf: parse-json(serialize(v, json)) deep-equals v (bug-hunting)',
+    funcs=['elementpath/serialization.py:serialize_to_json'])
+def serialize_nested_empty(k: int, s: str) -> bool:
+    """
+    pre: -8 <= k <= 8 and len(s) <= 1 and all('a' <= c <= 'z' for c in s)
+    post: _
+    """
+    return ev(T['nested_empty'], a=k / 4, s=s) == [True] and ev(T['nested_map'], a=k / 4) == [True]
